@@ -257,6 +257,40 @@ def walks(edges, reads, nwalks=200, depth=8, seed=0, procs=None):
     return total, mism
 
 
+def harvest_repo_tests(paths=("tests/table", "tests/test_markdown.py", "tests/scripts/test_odfdo_table_shrink.py"), timeout=900):
+    """Run the repository's OWN tests under the external tracing plugin and
+    return the recorded outermost mutating Table calls as single-event traces."""
+    import subprocess
+    import tempfile
+    from pathlib import Path
+
+    from .common import REPO, ROOT, SRC
+
+    fd, path = tempfile.mkstemp(prefix="verif_harvest_", suffix=".ndjson")
+    os.close(fd)
+    try:
+        env = dict(os.environ, ODFDO_VERIF="1", ODFDO_VERIF_TRACE=path, PYTHONPATH=f"{ROOT}:{SRC}")
+        r = subprocess.run(["/venv/bin/python", "-m", "pytest", "-q", "-x", "-p", "no:cacheprovider", "-p", "harness.pytest_trace_plugin", *paths],
+                           cwd=REPO, env=env, capture_output=True, text=True, timeout=timeout)
+        lines = Path(path).read_text().splitlines()
+    finally:
+        Path(path).unlink(missing_ok=True)
+    traces = []
+    for ln in lines:
+        ev = json.loads(ln)
+        if "post" not in ev or "pre" not in ev:
+            continue
+        # bounded table sizes: TLC evaluates the recursive operators on the whole recorded table
+        if any(len(st["rows"]) > 120 or sum(len(r) for r in st["rows"]) > 2500 or len(st["cols"]) > 200 for st in (ev["pre"], ev["post"])):
+            continue
+        if "exc" in ev:          # the test provoked an error on purpose: no claim on the result
+            ev["op"] = {"op": "untranslated"}
+            del ev["exc"]
+        ev["kind"] = "table"
+        traces.append([ev])
+    return traces, r.returncode, r.stdout[-300:]
+
+
 def signature(m: dict) -> str:
     """Identification of a mismatch for known-finding matching and dedup:
     observable kind | operation | structural class of the transition."""
@@ -286,7 +320,7 @@ def kind_matches(kind: str, verdict_kinds) -> bool:
     return any(kind == k or kind.startswith(k + ":") for k in verdict_kinds)
 
 
-def run_table_property(run, tier: str, verdict_kinds, budgets=None, parts=("mc", "edges", "walks", "traces")):
+def run_table_property(run, tier: str, verdict_kinds, budgets=None, parts=("mc", "edges", "walks", "traces", "harvest")):
     """Run the shared table machinery; mismatches whose observable is in
     verdict_kinds are verdicts of this property, the others are reported in
     the evidence as diagnostics (they belong to a sibling property)."""
@@ -372,5 +406,26 @@ def run_table_property(run, tier: str, verdict_kinds, budgets=None, parts=("mc",
             if ev["kind"] == "row":
                 m["pre"] = {"rows": [pre], "cols": []}
             take([m], "trace")
+    if "harvest" in parts:
+        traces, rc, tail = harvest_repo_tests()
+        run.notes["harvested_repo_test_calls"] = len(traces)
+        run.notes["harvest_pytest_rc"] = rc
+        if traces:
+            res, verdicts = td.validate(traces)
+            run.add_tlc("GridTrace validation of calls harvested from the repository's own tests", res)
+            if verdicts is None:
+                run.machinery("GridTrace produced no report on harvested traces")
+            run.count(len(traces))
+            run.validated(len(traces))
+            run.notes["harvest_translated"] = sum(1 for t in traces if t[0]["op"]["op"] != "untranslated")
+            for tr in traces:
+                run.klass("harvest", tr[0]["method"], tr[0]["op"]["op"] != "untranslated")
+            for v in verdicts["verdicts"]:
+                ev = traces[v["tid"] - 1][0]
+                kind = v["clause"] if v["clause"] in ("xml", "struct") else f"{v['clause']}:{v['what']}"
+                take([{"kind": kind, "pre": ev["pre"], "op": ev["op"] if ev["op"]["op"] != "untranslated" else {"op": ev["method"]},
+                       "got": ev["post"], "what": v["what"], "test": ev["test"], "method": ev["method"]}], "harvested-repo-test")
+        elif rc != 0:
+            run.notes["harvest_note"] = "pytest under the tracing plugin did not produce traces: " + tail
     run.notes["diagnostics_other_properties"] = dict(diag)
     return diag
